@@ -17,6 +17,8 @@ DeltaDecDef(y, d) == FoldLeft(LAMBDA acc, i : Append(acc, (y[i] + (IF i > d THEN
 
 \* ---- machine: lzma_delta_coder { distance, pos, history[256] }
 DeltaInit(d) == [dist |-> d, pos |-> 0, hist |-> [i \in 0..255 |-> 0]]
+\* re-initialising a used coder (lzma_delta_coder_init on an existing object): the history is all zeros again
+DeltaReinit(old, d) == DeltaInit(d)
 \* one byte through copy_and_encode()/encode_in_place(): returns <<state, output byte>>
 EncByte(s, b) == LET tmp == s.hist[(s.dist + s.pos) % 256]
                  IN <<[s EXCEPT !.hist = [s.hist EXCEPT ![s.pos] = b], !.pos = (s.pos + 255) % 256], (b + 256 - tmp) % 256>>
